@@ -47,6 +47,15 @@ Inductive req :=
 Record ent_pb := { ep_id : N; ep_owner : N; ep_pose : pose; ep_flag : N }.
 Record comp_pb := { cp_tid : N; cp_eid : N; cp_data : N }.
 
+Global Instance action_eq_dec : EqDecision action.
+Proof. solve_decision. Defined.
+Global Instance asset_eq_dec : EqDecision asset.
+Proof. solve_decision. Defined.
+Global Instance ent_pb_eq_dec : EqDecision ent_pb.
+Proof. solve_decision. Defined.
+Global Instance comp_pb_eq_dec : EqDecision comp_pb.
+Proof. solve_decision. Defined.
+
 (* state dump of one session (the [OSnap] observation, hook-read) *)
 Record sdump := {
   d_sid : N; d_uuid : N;
@@ -94,7 +103,9 @@ Inductive msg :=
 | MAssetAddB (ots : N) (a : asset)
 | MSignedLatencyResp (rid count : N) (ids : list N) (uuid client wallet : N) (stats_ok sig_ok : bool)
 | MDagazResp (kind rid : N)
-| MSnap (sessions : list sdump) (gauge : Z) (queued : list (N * N)). (* conn, queue length *)
+| MSnap (sessions : list sdump) (gauge : Z) (queued : list (N * N)) (* conn, queue length *)
+| MBad (code arg : Z).   (* harness-reported anomaly: undecodable server message (-1 ty), reissued ping id (-2 idx),
+                            non-canonical session id string (-3), unknown ping id in a latency report (-4 id) *)
 
 Inductive verdict := VOk | VErr | VSkip | VPanic.
 
